@@ -134,14 +134,57 @@ pub mod model {
         s.wrapping_add(0x2468)
     }
 
+    /// Programmable oracle (feature `prog`): while `ORACLE.on`, the k-th query is answered with the
+    /// programmed state `ORACLE.ans[k]` (no byte is read), and its message / DST lengths are recorded.
+    /// All state lives in ONE static struct (see DESIGN.md §2.3 rule 3 for why that matters).
+    #[cfg(feature = "prog")]
+    pub struct Oracle {
+        pub on: bool,
+        pub n: usize,
+        pub ans: [u16; 12],
+        pub msg_len: [usize; 12],
+        pub dst_len: [usize; 12],
+    }
+    #[cfg(feature = "prog")]
+    pub static mut ORACLE: Oracle = Oracle { on: false, n: 0, ans: [0; 12], msg_len: [0; 12], dst_len: [0; 12] };
+    #[cfg(feature = "prog")]
+    pub fn oracle() -> &'static mut Oracle {
+        unsafe { &mut *core::ptr::addr_of_mut!(ORACLE) }
+    }
+    #[cfg(feature = "prog")]
+    pub(crate) fn record(tag: u8, msgs: &[&[u8]], dsts: &[&[u8]], len_in_bytes: usize) -> u16 {
+        let o = oracle();
+        if !o.on {
+            return fold(tag, msgs, dsts, len_in_bytes);
+        }
+        let k = o.n;
+        assert!(k < 12, "oracle table exhausted");
+        let mut ml = 0;
+        let mut j = 0;
+        while j < msgs.len() {
+            ml += msgs[j].len();
+            j += 1;
+        }
+        let mut dl = 0;
+        let mut j = 0;
+        while j < dsts.len() {
+            dl += dsts[j].len();
+            j += 1;
+        }
+        o.msg_len[k] = ml;
+        o.dst_len[k] = dl;
+        o.n = k + 1;
+        o.ans[k]
+    }
+
     /// Without the `oraclelog` feature the oracle is a pure function (no global state is touched:
     /// Kani 0.68 / CBMC 6.11 report spurious invalid-pointer failures after writes to some statics).
-    #[cfg(not(feature = "oraclelog"))]
+    #[cfg(not(any(feature = "oraclelog", feature = "prog")))]
     pub(crate) fn record(tag: u8, msgs: &[&[u8]], dsts: &[&[u8]], len_in_bytes: usize) -> u16 {
         fold(tag, msgs, dsts, len_in_bytes)
     }
 
-    #[cfg(feature = "oraclelog")]
+    #[cfg(all(feature = "oraclelog", not(feature = "prog")))]
     pub(crate) fn record(tag: u8, msgs: &[&[u8]], dsts: &[&[u8]], len_in_bytes: usize) -> u16 {
         let mut state = fold(tag, msgs, dsts, len_in_bytes);
         unsafe {
